@@ -156,7 +156,7 @@ class Compiler:
 
         if not label.local:
             state["internal_symbols_list"].append(label.name)
-            if state["extern_all"]:
+            if state["extern_all"] and not label.is_extern:
                 self.declare_external_symbol(state["extern_all"], label.name, state)
 
 
@@ -178,7 +178,7 @@ class Compiler:
         if insn.is_extern:
             self.declare_external_symbol(insn, insn.target.name, state)
 
-        if state["extern_all"]:
+        if state["extern_all"] and not insn.is_extern:
             self.declare_external_symbol(state["extern_all"], insn.target.name, state)
 
 
